@@ -139,24 +139,31 @@ Record resp := {
   r_headers : headers;
   r_text : option str;
   r_data : option data;
-  r_media : option media
+  r_media : option media;
+  r_rendered : option media    (* Response._media_rendered: the media whose serialization is
+                                  cached by an earlier render_body(); None = _UNSET *)
 }.
 
 Definition with_status (r : resp) (s : N) : resp :=
   {| r_status := s; r_headers := r_headers r; r_text := r_text r; r_data := r_data r;
-     r_media := r_media r |}.
+     r_media := r_media r;
+     r_rendered := r_rendered r |}.
 Definition with_headers (r : resp) (h : headers) : resp :=
   {| r_status := r_status r; r_headers := h; r_text := r_text r; r_data := r_data r;
-     r_media := r_media r |}.
+     r_media := r_media r;
+     r_rendered := r_rendered r |}.
 Definition with_text (r : resp) (t : option str) : resp :=
   {| r_status := r_status r; r_headers := r_headers r; r_text := t; r_data := r_data r;
-     r_media := r_media r |}.
+     r_media := r_media r;
+     r_rendered := r_rendered r |}.
 Definition with_data (r : resp) (d : option data) : resp :=
   {| r_status := r_status r; r_headers := r_headers r; r_text := r_text r; r_data := d;
-     r_media := r_media r |}.
+     r_media := r_media r;
+     r_rendered := r_rendered r |}.
 Definition with_media (r : resp) (m : option media) : resp :=
   {| r_status := r_status r; r_headers := r_headers r; r_text := r_text r; r_data := r_data r;
-     r_media := m |}.
+     r_media := m;
+     r_rendered := None |}.   (* the media setter invalidates the render cache *)
 
 Definition s_content_type : str := Eval vm_compute in lit "content-type".
 Definition s_vary : str := Eval vm_compute in lit "vary".
@@ -239,15 +246,32 @@ Record writes := {
   w_text : option str;
   w_data : option (list N);
   w_media : option N;
-  w_headers : hpairs
+  w_headers : hpairs;
+  w_render : bool           (* then resp.render_body() is called (a middleware or the responder
+                               peeking at the body) *)
 }.
+
+(* an early Response.render_body(): when it is the media that gets rendered, its
+   serialization is cached (and the content type defaulted) *)
+Definition early_render (r : resp) : resp :=
+  match r_text r, r_data r, r_media r, r_rendered r with
+  | None, None, Some m, None =>
+    let h := match hget (r_headers r) s_content_type with
+             | None | Some [] => hset (r_headers r) s_content_type MEDIA_JSON
+             | _ => r_headers r
+             end in
+    {| r_status := r_status r; r_headers := h; r_text := None; r_data := None;
+       r_media := Some m; r_rendered := Some m |}
+  | _, _, _, _ => r
+  end.
 
 Definition apply_writes (w : writes) (r : resp) : resp :=
   let r1 := match w_status w with Some s => with_status r s | None => r end in
   let r2 := match w_text w with Some t => with_text r1 (Some t) | None => r1 end in
   let r3 := match w_data w with Some d => with_data r2 (Some (DRaw d)) | None => r2 end in
   let r4 := match w_media w with Some m => with_media r3 (Some (MApp m)) | None => r3 end in
-  with_headers r4 (set_headers (r_headers r4) (w_headers w)).
+  let r5 := with_headers r4 (set_headers (r_headers r4) (w_headers w)) in
+  if w_render w then early_render r5 else r5.
 
 Inductive hend :=
 | HEReturn
@@ -258,7 +282,7 @@ Inductive hend :=
 Record hscript := { h_writes : writes; h_end : hend }.
 
 Definition no_writes : writes :=
-  {| w_status := None; w_text := None; w_data := None; w_media := None; w_headers := [] |}.
+  {| w_status := None; w_text := None; w_data := None; w_media := None; w_headers := []; w_render := false |}.
 
 Record env := {
   v_reg : registry;
@@ -403,10 +427,14 @@ Definition render (mf : mfail) (r : resp) : body + exc :=
     | Some d => inl (BData d)
     | None =>
       match r_media r with
-      | Some m => match media_fails mf r m with
+      | Some m =>
+        match r_rendered r with
+        | Some c => inl (BMedia c)            (* the cached serialization is sent *)
+        | None => match media_fails mf r m with
                   | Some x => inr x
                   | None => inl (BMedia m)
                   end
+        end
       | None => inl BNone
       end
     end
